@@ -276,6 +276,7 @@ pub fn run(ctx: &Ctx) -> i32 {
                 DVal::obj(vec![("b", DVal::s("v")), ("c", DVal::s("w"))]),
                 DVal::obj(vec![("b", DVal::s("v")), ("c", DVal::s("x"))]),
                 DVal::obj(vec![("b", DVal::Arr(vec![DVal::s("v")]))]),
+                DVal::obj(vec![("b", DVal::s("vw"))]),
             ];
             let mut arrays: Vec<Vec<DVal>> = vec![vec![]];
             for a in &elems {
@@ -292,6 +293,10 @@ pub fn run(ctx: &Ctx) -> i32 {
                 ("two keys", vec![(Key::plain("b"), RVal::Str("v".into())), (Key::plain("c"), RVal::Str("w".into()))]),
                 ("negated key", vec![(Key::with("b", KMod::Not), RVal::Str("v".into()))]),
                 ("list", vec![(Key::plain("b"), RVal::List(vec![RVal::Str("v".into()), RVal::Str("z".into())]))]),
+                // a quantifier written inside the block must hold within one element
+                ("all() in block", vec![(Key::with("b", KMod::All), RVal::List(vec![RVal::Str("*v*".into()), RVal::Str("i*W*".into())]))]),
+                ("of(2) in block", vec![(Key::with("b", KMod::Of(2)), RVal::List(vec![RVal::Str("*v*".into()), RVal::Str("?w".into()), RVal::Str("*x*".into())]))]),
+                ("of(0) in block", vec![(Key::with("b", KMod::Of(0)), RVal::List(vec![RVal::Str("*v*".into()), RVal::Str("i*W*".into())]))]),
             ];
             for (rname, inner) in &rules {
                 for negate in [false, true] {
